@@ -11,7 +11,8 @@ use std::net::{IpAddr, Ipv4Addr, Ipv6Addr, SocketAddr, SocketAddrV4, SocketAddrV
 
 pub fn gen_fam(c: &mut Choices) -> FamId {
     // k256 most often (shrinks towards it), every family represented
-    const W: [FamId; 11] = [
+    const W: [FamId; 12] = [
+        FamId::Tiny,
         FamId::Wide,
         FamId::K256,
         FamId::K256,
@@ -29,6 +30,9 @@ pub fn gen_fam(c: &mut Choices) -> FamId {
 
 pub fn gen_keys(c: &mut Choices, fam: FamId) -> Vec<Secret> {
     let n = 1 + c.below(3);
+    if fam == FamId::Tiny {
+        return (0..n).map(|_| Secret(c.arr32())).collect::<Vec<_>>().into_iter().enumerate().map(|(i, mut s)| { s.0[0] ^= i as u8; s }).collect();
+    }
     if fam == FamId::Wide {
         // the last byte of the secret selects the signature length (64 + 7 * (b % 37) + 0..6)
         return (0..n)
@@ -105,7 +109,7 @@ pub fn gen_any_key(c: &mut Choices, fam: FamId) -> Vec<u8> {
             let k: &[u8] = *c.pick(&RESERVED[..]);
             k.to_vec()
         }
-        8 => fam.scheme().key_name().to_vec(),
+        8 => fam.key_name().to_vec(),
         _ => {
             let n = c.range(11, 400);
             vec![b'k'; n]
@@ -488,7 +492,7 @@ pub fn gen_history(c: &mut Choices, fam: Option<FamId>) -> History {
 pub fn alphabet(fam: FamId) -> Vec<Op> {
     let v4: SocketAddr = "10.1.2.3:9000".parse().unwrap();
     let v6: SocketAddr = "[fe80::1]:9001".parse().unwrap();
-    let kn = fam.scheme().key_name().to_vec();
+    let kn = fam.key_name().to_vec();
     let mut a = vec![
         Op::SetSeq { seq: 5, k: 0 },
         Op::SetSeq { seq: u64::MAX, k: 0 },
